@@ -1,4 +1,5 @@
 import Verif.Concrete.Slot
+import Verif.Concrete.Ttl
 import Verif.Proto
 /-!
 # Structural tier (C08): replay the implementation's events on the L2 models, compare the private structure
@@ -9,26 +10,36 @@ open Verif Verif.Proto Verif.L2
 inductive L2S
   | rr (s : RrState)
   | slot (s : LState)
+  | tlru (s : TState)
+  | utlru (s : TState)
 
 def L2S.init (c : Cfg) : Option L2S :=
   match c.kind with
   | .rr => some (.rr (Rr.init c.cap c.rnd))
   | .lru => some (.slot (Slot.init .lru c.cap))
   | .mru => some (.slot (Slot.init .mru c.cap))
+  | .tlru => some (.tlru (Ttl.init .tlru c.cap 0))
+  | .utlru => some (.utlru (Ttl.init .utlru c.cap c.ttl))
   | _ => none
 
 def L2S.step (m : L2S) (now : Time) (op : Op) : L2S × Out :=
   match m with
   | .rr s => let r := Rr.core.step s now op; (.rr r.1, r.2)
   | .slot s => let r := Slot.core.step s now op; (.slot r.1, r.2)
+  | .tlru s => let r := (Ttl.coreOf .tlru).step s now op; (.tlru r.1, r.2)
+  | .utlru s => let r := (Ttl.coreOf .utlru).step s now op; (.utlru r.1, r.2)
 
 def L2S.dump : L2S → String
   | .rr s => Rr.dump s
   | .slot s => Slot.dump s
+  | .tlru s => Ttl.dump s
+  | .utlru s => Ttl.dump s
 
 def L2S.ub : L2S → Bool
   | .rr s => s.ub
   | .slot s => s.ub
+  | .tlru s => s.ub
+  | .utlru s => s.ub
 
 /-- events of instance 0 with the structure dump the harness printed after each (if any) -/
 def loop : L2S → Nat → List (Event × Option String) → Option String
